@@ -787,12 +787,27 @@ func totalSiteStatus(name string) string {
 var totalSeedProblems []string
 
 func totalSeedBlock(name string, fn func()) {
-	defer func() {
-		if r := recover(); r != nil {
-			totalSeedProblems = append(totalSeedProblems, name+" site="+totalPanicSite()+":"+totalPanicClass(r))
-		}
+	done := make(chan string, 1)
+	go func() {
+		defer func() {
+			if r := recover(); r != nil {
+				done <- name + " site=" + totalPanicSite() + ":" + totalPanicClass(r)
+				return
+			}
+			done <- ""
+		}()
+		fn()
 	}()
-	fn()
+	select {
+	case p := <-done:
+		if p != "" {
+			totalSeedProblems = append(totalSeedProblems, p)
+		}
+	case <-time.After(6 * caseTimeout):
+		// building valid seeds with the library's own encoders/decoders does not return
+		timeouts++
+		totalSeedProblems = append(totalSeedProblems, name+" site=hang-while-building-the-seed-pool")
+	}
 }
 
 // totalSafely runs a piece of GENERATOR code that calls into the library; a panic there becomes a
@@ -811,7 +826,8 @@ func totalSafely(c *Ctx, name string, fn func()) {
 	}()
 	// A generator produces many cases; it is bounded by a watchdog on PROGRESS, not on its total run time:
 	// if no new case was recorded for caseTimeout, the generator hangs inside a library call.
-	last, lastEvals := time.Now(), c.evals
+	progress := func() int { return c.evals + c.skipped } // skipped cases (after 3 time-outs) are progress too
+	last, lastEvals := time.Now(), progress()
 	for {
 		select {
 		case site := <-done:
@@ -821,8 +837,8 @@ func totalSafely(c *Ctx, name string, fn func()) {
 			}
 			return
 		case <-time.After(500 * time.Millisecond):
-			if c.evals != lastEvals {
-				last, lastEvals = time.Now(), c.evals
+			if progress() != lastEvals {
+				last, lastEvals = time.Now(), progress()
 			} else if time.Since(last) > caseTimeout+2*time.Second {
 				// the goroutine is abandoned (it may keep spinning): counts like a case time-out
 				timeouts++
@@ -841,6 +857,23 @@ var totalGeneratorHung bool
 
 // totalModelBudgetDiv: divisor of the case budget for model groups whose driver side is slow.
 var totalModelBudgetDiv = map[string]int{}
+
+// totalBounded runs generator-side library code with recover AND the case time-out; a call that does
+// not return is abandoned (counted in `timeouts`) and reported as "hang".
+func totalBounded(fn func() string) string {
+	if timeouts >= maxTimeouts {
+		return "hang" // cases are skipped anyway; do not start further possibly endless calls
+	}
+	done := make(chan string, 1)
+	go func() { done <- guard(fn) }()
+	select {
+	case out := <-done:
+		return out
+	case <-time.After(caseTimeout):
+		timeouts++
+		return "hang"
+	}
+}
 
 // totalLast holds the measurements of the most recent total.<decoder> execution (the
 // generator runs single-threaded and reads it right after c.Case).
@@ -1033,7 +1066,7 @@ func totalGdefSubReads(b []byte) string {
 			return
 		}
 		seen[key] = true
-		out := guard(func() string {
+		out := totalBounded(func() string {
 			p := parser.New(bytes.NewReader(b))
 			if kind == 'c' {
 				t, err := classdef.Read(p, pos)
@@ -1050,6 +1083,8 @@ func totalGdefSubReads(b []byte) string {
 		})
 		if strings.HasPrefix(out, "panic") {
 			out = "p"
+		} else if out == "hang" {
+			out = "ehang" // the sub-reader does not return: the V line then differs (the Go op times out too)
 		}
 		parts = append(parts, key+":"+out)
 	}
@@ -3242,6 +3277,16 @@ func areaTotal(c *Ctx) {
 	}
 	sort.Strings(names)
 	for _, n := range names {
+		if timeouts >= maxTimeouts {
+			// every further case would be skipped: nothing more can be executed in this run
+			c.Stat("generator-hang", "run closed after 3 time-outs")
+			return
+		}
+		if totalGeneratorHung {
+			// an abandoned generator goroutine may still touch the context: nothing else is generated
+			c.Stat("generator-hang", "run closed early")
+			return
+		}
 		n := n
 		sub := NewRng(r.U64())
 		// the list-based Lean models of some groups are slow on long inputs: smaller budgets there
@@ -3252,6 +3297,10 @@ func areaTotal(c *Ctx) {
 		}
 		totalSafely(c, "model-generator-"+n, func() { totalModelGens[n](c, sub, seeds) })
 		c.N = full
+	}
+	if totalGeneratorHung || timeouts >= maxTimeouts {
+		c.Stat("generator-hang", "run closed early")
+		return
 	}
 	totalMirrorToD(c, NewRng(r.U64()), emit)
 
